@@ -1,3 +1,145 @@
-//! C07 — not yet built
-use crate::ctx::Ctx;
-pub fn run(c: &mut Ctx) { c.notes.push("C07: not implemented".into()); }
+//! C07 — incremental updates: latest revision wins, history preserved.
+use crate::codec::*;
+use crate::ctx::{guard, Ctx};
+use crate::gen::*;
+use crate::props::c01::{compare_docs, load_reply};
+use crate::props::c02::*;
+use crate::refwriter::*;
+use crate::rng::Rng;
+use lopdf::xref::XrefType;
+use lopdf::{Dictionary, Document, IncrementalDocument, Object};
+use serde_json::json;
+
+/// base revision + k updates; each update replaces a random subset and adds new objects
+pub fn gen_history(r: &mut Rng, k: usize) -> (Vec<Revision>, AObjects) {
+    let base = gen_aobjects(r, 8, 0);
+    let extra = gen_trailer_extra(r, &base);
+    let mut latest = base.clone();
+    let mut revs = vec![Revision { objects: base, trailer_extra: extra.clone() }];
+    for _ in 0..k {
+        let mut upd = AObjects::new();
+        let ids: Vec<_> = latest.keys().cloned().collect();
+        for id in &ids { if r.chance(1, 3) { let fresh = gen_aobjects(r, 1, 0); upd.insert(*id, fresh.into_values().next().unwrap()); } }
+        let maxn = ids.iter().map(|i| i.0).max().unwrap_or(0);
+        for (_, v) in gen_aobjects(r, 3, 0) { if r.chance(1, 2) { let n = maxn + 1 + upd.len() as u32; upd.insert((n, 0), v); } }
+        if upd.is_empty() { upd.insert(ids[0], AObj { obj: Object::Integer(r.range(0, 99)), stream: None }); }
+        for (id, v) in &upd { latest.insert(*id, v.clone()); }
+        revs.push(Revision { objects: upd, trailer_extra: extra.clone() });
+    }
+    (revs, latest)
+}
+
+pub fn run(c: &mut Ctx) {
+    c.rule = "histories of 1..k update revisions over random base documents: (A) written by the reference writer in every cross-reference style \
+(tables, streams, object streams, compressed or not), oracle = latest-wins abstract document; (B) replayed through IncrementalDocument \
+(replace/add objects, save, reload after every step): prefix preserved, previous view unchanged, strict reader accepts, content = previous overridden \
+by new; model bytes = real bytes (`save_incr`), model load = real load. Non-trivial = every case.".into();
+    let kmax = if c.quick() { 3 } else { 6 };
+    let mut counters = Counters::new();
+    // ---- (A) reference-writer histories
+    for i in 0..c.n(500, 8000) {
+        let Some(mut r) = c.case("refhist", i) else { continue };
+        let k = 1 + r.usize(kmax);
+        let (revs, latest) = gen_history(&mut r, k);
+        let mut style = gen_style(&mut r);
+        // an object that lives in object streams of two revisions is the registered finding F-C07-a: witness stream only
+        if style.objstm && k > 0 { style.objstm = false; style.xref = if r.chance(1, 2) { XrefStyle::Stream } else { XrefStyle::Table }; }
+        let version = "1.6";
+        let helper_from = latest.keys().map(|k| k.0).max().unwrap() + 1;
+        let w = write_file(&mut r, &mut counters, &style, version, &revs);
+        c.count(&format!("refhist.revisions_{}", k + 1));
+        check_file(c, &w.bytes, &latest, &revs[0].trailer_extra, version, helper_from, i < 2, &style);
+    }
+    // object streams in the updates only in ONE revision (base plain): allowed domain for "updated objects inside object streams"
+    for i in 0..c.n(200, 3000) {
+        let Some(mut r) = c.case("refhist_objstm", i) else { continue };
+        let (revs, latest) = gen_history(&mut r, 1);
+        let version = "1.6";
+        let helper_from = latest.keys().map(|k| k.0).max().unwrap() + 1;
+        // object streams in exactly ONE revision (base or update), so no number lives in containers of two revisions
+        let mut style = gen_style(&mut r); style.xref = XrefStyle::Stream; style.objstm = true;
+        let which = r.usize(2);
+        let w = write_file_with(&mut r, &mut counters, &style, version, &revs, &|ri| ri == which);
+        c.count(if which == 0 { "refhist_objstm.in_base" } else { "refhist_objstm.in_update" });
+        check_file(c, &w.bytes, &latest, &revs[0].trailer_extra, version, helper_from, false, &style);
+    }
+    // witness F-C07-a: the same object in object streams of two revisions
+    if let Some(mut r) = c.case("witness", 0) {
+        let mut base = AObjects::new();
+        base.insert((1, 0), AObj { obj: Object::Dictionary(Dictionary::new()), stream: None });
+        base.insert((2, 0), AObj { obj: Object::string_literal("old"), stream: None });
+        let mut upd = AObjects::new();
+        upd.insert((2, 0), AObj { obj: Object::string_literal("new"), stream: None });
+        let mut extra = Dictionary::new(); extra.set("Root", Object::Reference((1, 0)));
+        let revs = vec![Revision { objects: base.clone(), trailer_extra: extra.clone() }, Revision { objects: upd.clone(), trailer_extra: extra.clone() }];
+        let style = Style { xref: XrefStyle::Stream, objstm: true, compress: false, indirect_length: false, raw_cr_in_strings: false, junk_before_header: false, lexical_freedom: false };
+        // (no `load` correspondence here: with a number in two containers the rayon build is schedule-dependent, see C08)
+        // force both into object streams: retry seeds until both revisions put object 2 into a container
+        let mut reproduced = false; let mut found = false;
+        for _ in 0..40 {
+            let w = write_file(&mut r, &mut counters, &style, "1.6", &revs);
+            if w.containers.len() >= 2 {
+                if let Ok(d) = Document::load_mem(&w.bytes) {
+                    if let Some(Object::String(s, _)) = d.objects.get(&(2, 0)) { found = true; if s == b"old" { reproduced = true; break; } }
+                }
+            }
+        }
+        if found { c.witness("F-C07-a", reproduced, "object 2 stored in object streams of two revisions: the member of the older container is loaded"); }
+        else { c.notes.push("F-C07-a witness could not be constructed".into()); }
+    }
+    // ---- (B) IncrementalDocument replay
+    for i in 0..c.n(200, 3000) {
+        let Some(mut r) = c.case("incr", i) else { continue };
+        let mut doc = gen_doc(&mut r);
+        let stream = r.chance(1, 2);
+        doc.reference_table.cross_reference_type = if stream { XrefType::CrossReferenceStream } else { XrefType::CrossReferenceTable };
+        let mut bytes = Vec::new();
+        if doc.save_to(&mut bytes).is_err() { c.count("incr.base_save_error"); continue; }
+        let Ok(mut expected) = Document::load_mem(&bytes) else { c.oracle_fail("incr:base-load", "base does not load", json!({})); continue };
+        let k = 1 + r.usize(kmax);
+        for step in 0..k {
+            let Ok(mut inc) = IncrementalDocument::load_from(&bytes[..]) else { c.oracle_fail("incr:load", "file written by incremental save does not load as IncrementalDocument", json!({"file": hex(&bytes), "step": step})); break };
+            let prev_view = inc.get_prev_documents().clone();
+            // edits: replace some, add some
+            let ids: Vec<_> = prev_view.objects.keys().cloned().filter(|id| !matches!(prev_view.objects[id], Object::Stream(ref s) if s.dict.has_type(b"XRef"))).collect();
+            for id in &ids { if r.chance(1, 3) { let o = gen_obj(&mut r, 3); inc.new_document.set_object(*id, o.clone()); expected.objects.insert(*id, o); c.count("incr.replaced"); } }
+            for _ in 0..r.usize(3) { let o = if r.chance(1, 4) { Object::Stream(gen_stream(&mut r, 1)) } else { gen_obj(&mut r, 3) }; let id = inc.new_document.add_object(o.clone()); expected.objects.insert(id, o); c.count("incr.added"); }
+            let kind = if stream { "stream" } else { "table" };
+            let nd = &inc.new_document;
+            let req = format!("save_incr {} {} {} {} {} {} {}", kind, nd.max_id, hex_tok(nd.version.as_bytes()), hex_tok(&nd.binary_mark), hex_tok(&bytes),
+                show_obj(&Object::Dictionary(nd.trailer.clone())), show_objects(nd.objects.iter()));
+            let mut out = Vec::new();
+            match guard(|| inc.save_to(&mut out)) {
+                Ok(Ok(())) => {
+                    c.corr(req, format!("ok {} {} {}", hex_tok(&out), inc.new_document.max_id, show_obj(&Object::Dictionary(inc.new_document.trailer.clone()))));
+                    c.nontrivial(&format!("{}-{}", i, step));
+                    if !out.starts_with(&bytes) { c.oracle_fail("incr:prefix", "previous bytes are not an unchanged prefix of the incremental save", json!({"step": step})); break; }
+                    // previous view unmodified
+                    let view = |d: &Document| format!("{} {} {} {}", d.max_id, d.version, show_obj(&Object::Dictionary(d.trailer.clone())), show_objects(d.objects.iter()));
+                    if view(&prev_view) != view(inc.get_prev_documents()) {
+                        c.oracle_fail("incr:prev-view", "the view of the previous revisions changed by saving", json!({"step": step}));
+                    }
+                    // only new objects + xref + Prev after the prefix: strict structural reader over all revisions
+                    match crate::strict::strict_load(&out) {
+                        Ok(sd) => { if sd.revisions != step + 2 { c.oracle_fail("incr:revisions", &format!("strict reader sees {} revisions, expected {}", sd.revisions, step + 2), json!({"file": hex(&out)})); } c.count("incr.strict_ok"); }
+                        Err(rule) => { c.oracle_fail(&format!("incr:strict-reject:{}", rule.split(' ').take(3).collect::<Vec<_>>().join("-")), &format!("strict reader rejects the incremental file: {}", rule), json!({"file": hex(&out)})); }
+                    }
+                    // reload: content = previous overridden by new
+                    c.corr(format!("load {}", hex_tok(&out)), load_reply(&out));
+                    match Document::load_mem(&out) {
+                        Ok(back) => {
+                            let strip = |d: &Document| { let mut d = d.clone(); d.objects.retain(|_, o| !matches!(o, Object::Stream(s) if s.dict.has_type(b"XRef"))); d };
+                            if let Some(diff) = compare_docs(&strip(&expected), &strip(&back), false) { c.oracle_fail("incr:content", &format!("step {}: {}", step, diff), json!({"file": hex(&out)})); break; }
+                        }
+                        Err(e) => { c.oracle_fail("incr:reload", &format!("step {}: incremental file does not load: {:?}", step, e), json!({"file": hex(&out)})); break; }
+                    }
+                    bytes = out;
+                }
+                Ok(Err(_)) => { c.count("incr.save_error"); break; }
+                Err((site, msg)) => { c.oracle_fail(&format!("panic@{}", site), &msg, json!({})); break; }
+            }
+        }
+    }
+    for (k, v) in counters { c.count_n(&format!("choice.{}", k), v); }
+}
+
